@@ -256,6 +256,12 @@ pub struct LineTable {
 
 impl LineTable {
     pub fn new(text: &str) -> Self {
+        Self::with_terminators(text, true)
+    }
+
+    /// `unicode_terminators == false`: only \n, \r\n and \r end a line - the convention of the rewriter's own line table
+    /// (and of its maps, on the input and on the output side alike); used for files that hold a raw U+2028 / U+2029
+    pub fn with_terminators(text: &str, unicode_terminators: bool) -> Self {
         let mut starts = vec![0];
         let b = text.as_bytes();
         let mut i = 0;
@@ -270,7 +276,7 @@ impl LineTable {
                 } else {
                     starts.push(i + 1);
                 }
-            } else if b[i] == 0xE2 && i + 2 < b.len() && b[i + 1] == 0x80 && (b[i + 2] == 0xA8 || b[i + 2] == 0xA9) {
+            } else if unicode_terminators && b[i] == 0xE2 && i + 2 < b.len() && b[i + 1] == 0x80 && (b[i + 2] == 0xA8 || b[i + 2] == 0xA9) {
                 starts.push(i + 3);
                 i += 2;
             }
